@@ -156,15 +156,11 @@ Proof.
   intros HA H. unfold build_enum_field in H.
   destruct (f_ty f) as [|full|full]; try discriminate.
   destruct (find_enum D full) as [e|]; [|discriminate].
-  assert (Hst : exists st0, (match lookup st (enum_key e) with
-                             | Some _ => Ok st
-                             | None => obind (build_enum e) (fun r => Ok ((enum_key e, Linked r) :: st))
-                             end) = Ok st0 /\ acyclic st0).
-  { destruct (lookup st (enum_key e)) eqn:El.
-    - exists st. split; [reflexivity|exact HA].
-    - destruct (build_enum e) as [r| | |] eqn:Eb; cbn [obind] in *; try discriminate.
-      exists ((enum_key e, Linked r) :: st). split; [reflexivity|].
-      apply acyclic_cons; [eapply build_enum_no_targets; eauto|exact HA]. }
+  assert (Hst : exists st0, enum_ref st e = Ok st0 /\ acyclic st0).
+  { destruct (enum_ref st e) as [st0| | |] eqn:Er; cbn [obind] in H; try discriminate.
+    exists st0. split; [reflexivity|].
+    destruct (enum_ref_inv st e st0 Er) as [[-> _]|(_ & r & Eb & ->)]; [exact HA|].
+    apply acyclic_cons; [eapply build_enum_no_targets; eauto|exact HA]. }
   destruct Hst as (st0 & Hst0 & HA0). rewrite Hst0 in H. cbn [obind] in H.
   match type of H with obind ?o _ = _ => destruct o as [rules| | |]; cbn [obind] in H; try discriminate end.
   inversion H; subst st1 s. exact HA0.
@@ -183,7 +179,7 @@ Proof.
   - inversion H; subst st1 s. exact HA.
   - destruct (has_prefix s_google_protobuf full); [discriminate|].
     destruct (find_msg D full) as [m|]; [|discriminate].
-    destruct (lookup st (msg_key m)) eqn:El; cbn [obind] in H.
+    destruct (lookup st (msg_key m)) as [en|] eqn:El; [destruct (is_enum_entry en); cbn [obind] in H; [discriminate|]|cbn [obind] in H].
     + inversion H; subst st1 s. exact HA.
     + destruct (rec ((msg_key m, Placeholder) :: st) m) as [[st2 r]| | |] eqn:Er; cbn [obind] in H; try discriminate.
       inversion H; subst st1 s.
